@@ -43,6 +43,9 @@ def validate(chk, events, nphrases, label):
             if line.startswith('<<"REACHED"'):
                 parts = line.strip("<>").split(",")
                 reached, noncanon = int(parts[1]), int(parts[3])
+                badlayout = int(parts[4]) if len(parts) > 4 else 0
+                if badlayout:
+                    chk.drift("%d freshly built on-disk indexes are not one segment in shipped order" % badlayout)
         if reached is None:
             raise ToolError("no REACHED line from Trace_IndexBuild")
         chk.model("Trace_IndexBuild(%s, %d events)" % (label, len(events)), t, "trace validation")
@@ -74,6 +77,9 @@ def one_history(chk, p, seed, label):
             chk.drift(json.dumps(pb))
         else:
             chk.drift("session behaviour: " + json.dumps(pb))
+    chk.cov["on_disk_layouts_read"] = chk.cov.get("on_disk_layouts_read", 0) + info.get("layouts", 0)
+    chk.cov["layouts_differing_between_builds"] = chk.cov.get("layouts_differing_between_builds", 0) + info.get("layouts_differ", 0)
+    chk.cov["witness_phrases_asked"] = chk.cov.get("witness_phrases_asked", 0) + info.get("witness_phrases", 0)
     if info["order_mismatch"]:
         chk.drift("documents were added in a different order in %d rebuilds" % info["order_mismatch"])
     lookups = [e for e in events if e["ev"] == "lookup"]
